@@ -610,6 +610,9 @@ class ExcelInPython:
         return self._average(average_range)
     
     def _countifs(self, count_range: List[List], count_condition: Callable, *range_n_criteria):
+        class Undefined:
+            pass
+
         # Если ячейка в диапазоне критериев пуста, COUNTIFS обрабатывает ее как значение 0.
 
         count_range = self._flatten_list(count_range)
@@ -627,9 +630,8 @@ class ExcelInPython:
         for [_range, criteria] in range_and_criteria_zip:
             for i in range(len(_range)):
                 if not criteria(_range[i]):
-                    count_range[i] = None
-        count_range = [i if count_condition(i) else None for i in count_range]
-        return len(list(filter(None, count_range)))
+                    count_range[i] = Undefined()
+        return len([i for i in count_range if not isinstance(i, Undefined) and count_condition(i)])
         
     def _network_days(self, date_start: datetime.datetime, date_end: datetime.datetime,
                       holidays: List[List[datetime.datetime]] | None = None):
